@@ -287,31 +287,43 @@ def homogeneity(c):
             c.ensure_eq('C07.homogeneity.directions_unchanged', s2[i], s1[i], tol=1e-9)
 
 
-@contract('C07.tilt_about_centre_of_curvature', FUNCS, ['C07'], bundle=True, numeric_only=True)
-def tilt_centre(c):
-    """a sphere tilted about its own centre of curvature is the same sphere"""
-    R = c.real('R', -60, 60, nonzero=True, sample=lambda rng: rng.choice([-1, 1]) * rng.uniform(15, 60))
-    n1, n2 = c.real('n1', 1.0, 2.5, positive=True), c.real('n2', 1.0, 2.5, positive=True)
-    th = c.real('theta', -0.3, 0.3)
-    zv = c.real('z_vertex', 1, 10)
-    surfs = c.mod('optiland.surfaces')
-    mats = c.mod('optiland.materials')
-    geos = c.mod('optiland.geometries')
-    CoordinateSystem = c.mod('optiland.coordinate_system').CoordinateSystem
-    a = _surface(c, R, 0.0, n1, n2, z=zv)
-    # vertex moved so that the centre (0, 0, zv + R) stays: local (0,0,R) -> rot_x(th) (0,0,R) = (0, -R sin, R cos)
-    cs = CoordinateSystem(x=0.0, y=R * c.sin(th), z=zv + R - R * c.cos(th), rx=th)
-    b = surfs.Surface(geos.StandardGeometry(cs, R, 0.0), mats.IdealMaterial(n1, 0.0), mats.IdealMaterial(n2, 0.0))
-    p = (c.real('px', -2, 2), c.real('py', -2, 2), 0.0)
-    d = c.unit3('L', 'M', 'N', cone=0.9)
-    r1 = mk_rays(c, p, d)
-    a.trace(r1)
-    r2 = mk_rays(c, p, d)
-    b.trace(r2)
-    s1, s2 = _state(c, r1), _state(c, r2)
-    if c.isfinite(s1[0]) and c.isfinite(s2[0]):
-        for i in range(8):
-            c.ensure_eq('C07.tilt.same_rays_after_tilting_about_the_centre_of_curvature', s2[i], s1[i], tol=1e-9)
+def _tilt_centre(axes):
+    @contract('C07.tilt_about_centre_of_curvature' + ('' if axes == 'x' else '.' + axes), FUNCS +
+              ['optiland/coordinate_system.py:CoordinateSystem.localize', 'optiland/coordinate_system.py:CoordinateSystem.globalize'],
+              ['C07'], bundle=True, numeric_only=True)
+    def tilt_centre(c):
+        """a sphere tilted about its own centre of curvature (about x, about y, about both, and with a spin about its axis) is the
+        same sphere: the surface step gives the same global ray"""
+        R = c.real('R', -60, 60, nonzero=True, sample=lambda rng: rng.choice([-1, 1]) * rng.uniform(15, 60))
+        n1, n2 = c.real('n1', 1.0, 2.5, positive=True), c.real('n2', 1.0, 2.5, positive=True)
+        a = c.real('theta_x', -0.3, 0.3) if 'x' in axes else 0.0
+        b_ = c.real('theta_y', -0.3, 0.3) if 'y' in axes else 0.0
+        g = c.real('theta_z', -1.0, 1.0) if 'z' in axes else 0.0
+        zv = c.real('z_vertex', 1, 10)
+        surfs = c.mod('optiland.surfaces')
+        mats = c.mod('optiland.materials')
+        geos = c.mod('optiland.geometries')
+        CoordinateSystem = c.mod('optiland.coordinate_system').CoordinateSystem
+        s0 = _surface(c, R, 0.0, n1, n2, z=zv)
+        # the vertex is moved so that the centre (0, 0, zv + R) stays: local (0, 0, R) -> Rx(a) Ry(b) Rz(g) (0, 0, R)
+        #   = (R sin b, -R cos b sin a, R cos b cos a)     (right-handed rotations, applied z first, x last)
+        cs = CoordinateSystem(x=-R * c.sin(b_), y=R * c.cos(b_) * c.sin(a), z=zv + R - R * c.cos(b_) * c.cos(a), rx=a, ry=b_, rz=g)
+        s1_ = surfs.Surface(geos.StandardGeometry(cs, R, 0.0), mats.IdealMaterial(n1, 0.0), mats.IdealMaterial(n2, 0.0))
+        p = (c.real('px', -2, 2), c.real('py', -2, 2), 0.0)
+        d = c.unit3('L', 'M', 'N', cone=0.9)
+        r1 = mk_rays(c, p, d)
+        s0.trace(r1)
+        r2 = mk_rays(c, p, d)
+        s1_.trace(r2)
+        st1, st2 = _state(c, r1), _state(c, r2)
+        if c.isfinite(st1[0]) and c.isfinite(st2[0]):
+            for i in range(8):
+                c.ensure_eq('C07.tilt.same_rays_after_tilting_about_the_centre_of_curvature', st2[i], st1[i], tol=1e-9)
+    return tilt_centre
+
+
+for _ax in ('x', 'y', 'xy', 'xyz'):
+    _tilt_centre(_ax)
 
 
 # ---- the surface step, by composition with the kernel contracts above ------------------------------------------------------
